@@ -95,6 +95,8 @@ pub fn generate_parser(
     }
 
     let table = LRTable::new(&grammar, settings)?;
+    #[cfg(feature = "verif")]
+    crate::verif::observe(&grammar, &table);
     if settings.dot {
         let dot_file = grammar_path.with_extension("dot");
         println!("Writting dot file: {:?}", &dot_file);
